@@ -56,7 +56,10 @@ class FakeTarget(object):
     def _get_address(self):
         return self.addr_d
 
+    connected = False
+
     def connect(self, factory):
+        self.connected = True
         return defer.succeed(object())
 
 
@@ -68,6 +71,8 @@ class Run(object):
         self.sim = simtor.SimTor(self.proto, self.tr)
         self.sim.info.update({"ns/all": [], "circuit-status": "", "stream-status": "", "address-mappings/all": "",
                               "entry-guards": "", "process/pid": "1"})
+        self.holding = False
+        self.sim.hold = lambda line: self.holding and "__LeaveStreamsUnattached" in line
         self.proto.makeConnection(self.tr)
         self.sim.pump()
         self.state = TorState(self.proto)
@@ -150,8 +155,10 @@ class Run(object):
                 tgt = FakeTarget()
                 ep = TorCircuitEndpoint(self.reactor, self.state, self.state.circuits[e["c"]], tgt)
                 v = self.via[k] = dict(st="waitaddr", tgt=tgt)
+                self.holding = bool(e.get("late"))
                 d = ep.connect(object())
                 self.sim.pump()
+                self.holding = False
 
                 def ok(_, v=v):
                     v["st"] = "done"
@@ -159,6 +166,8 @@ class Run(object):
                 def err(f, v=v):
                     v["st"] = "refused" if v["st"] == "waitaddr" and not v.get("addr") else "failed"
                 d.addCallbacks(ok, err)
+            elif a == "ConfAck":
+                self.sim.release()
             elif a == "ViaAddr":
                 v = self.via[e["k"]]
                 v["addr"] = True
@@ -182,8 +191,12 @@ class Run(object):
         self.nlog = len(self.sim.log)
         a = self.state._attacher
         att = "none" if a is None else "A" if a is self.A else "V" if a is circuit_mod._get_circuit_attacher.attacher else "?"
-        return dict(wire=wire, att=att, rep=[self.reps[1], self.reps[2], self.reps[3]],
-                    via=[self.via["k1"]["st"], self.via["k2"]["st"]], exc=self.exc)
+        via = []
+        for k in ("k1", "k2"):
+            v = self.via[k]
+            # "waitaddr" = the underlying SOCKS connect has been started; before that the connection waits for the SETCONF
+            via.append("waitconf" if v["st"] == "waitaddr" and not v["tgt"].connected else v["st"])
+        return dict(wire=wire, att=att, rep=[self.reps[1], self.reps[2], self.reps[3]], via=via, exc=self.exc)
 
 
 def replay(script):
